@@ -625,6 +625,9 @@ def _call_c20(con, fn, argvals, labels):
         return res
     got = [_c20_projection(e) for e in entries]
     res.outcome = f"entries {got!r}"
+    if [numbers_all[i] for i in listed] != numbers:
+        res.outcome += (f" (observation: with outline level {outline} the numbers {numbers} differ from the numbers "
+                        f"{[numbers_all[i] for i in listed]} the same headings have in the full outline)")
     res.checked += 7
     # which headings, in document order
     other = [c.tag for c in ib if c.tag not in (_q("text:index-title"), _q("text:p"))]
@@ -751,7 +754,9 @@ def _c15_generated_bytes():
     body.append(toc)
     body.append(Header(1, "Chapter a"))
     p = Paragraph("alpha ")
-    p.append(Span("beta a"))
+    span = Span("beta a")
+    p.append(span)
+    _raw(span).tail = " gamma a"
     body.append(p)
     body.append(List(["item a", "item b"]))
     fp = Paragraph("holder")
@@ -905,6 +910,20 @@ def _c15_invoke(doc, obj, entry, kind, variant):
         return ("raised", type(e).__name__, str(e)[:200])
 
 
+C15_MAX_TABLE_EXTENT = 200       # documents with a table of more rows or columns (repeats expanded) are skipped
+
+
+def _c15_table_extent(doc):
+    """Largest number of rows or columns (repeat attributes expanded) of any table, by raw lxml."""
+    worst = 0
+    for t in _raw(doc.body).iter(_q("table:table")):
+        rows = sum(int(r.get(_q("table:number-rows-repeated"), "1")) for r in t.iter(_q("table:table-row")))
+        cols = max([sum(int(c.get(_q("table:number-columns-repeated"), "1")) for c in r
+                        if isinstance(c.tag, str)) for r in t.iter(_q("table:table-row"))] + [0])
+        worst = max(worst, rows, cols)
+    return worst
+
+
 def _c15_docs(thorough):
     if not thorough:
         return list(C15_QUICK_DOCS)
@@ -916,6 +935,9 @@ def _gen_c15(con, sigcase, count, seed):
     for docname in _c15_docs(thorough):
         try:
             doc = _c15_load(docname)
+            size = _c15_table_extent(doc)
+            if size > C15_MAX_TABLE_EXTENT:
+                raise ValueError(f"table extent {size} > {C15_MAX_TABLE_EXTENT}: outside the bounded table sizes")
             receivers = _c15_receivers(doc)
         except Exception as e:  # noqa
             yield {"doc": docname, "receiver": "<load>", "entry": repr(e)[:100], "kind": "load", "variant": ""}
@@ -971,10 +993,11 @@ contract(
     ensures=[Clause("unchanged", {"C15"}, lambda a, r, p: True), Clause("twice", {"C15"}, lambda a, r, p: True)],
     gen=_gen_c15, call_native=_call_c15,
     bounded=dict(
-        scope="documents: quick {generated text document (heading, span, list, frame, 3x4 table with two empty last rows "
-              "and an empty last column, filled TOC, user-defined metadata), templates text + spreadsheet, samples simple_table.ods, "
-              "toc_done.odt}; thorough {generated, the 4 templates, 25 samples of tests/samples (big.ods and "
-              "background.odp excluded)}.  Receivers: Document, Body, first Paragraph / Header / Span / Table / Row / "
+        scope="documents: quick {generated text document (heading, span, list, frame, 3x4 table with two empty last "
+              "rows and an empty last column, filled TOC, user-defined metadata), templates text + spreadsheet, samples "
+              "simple_table.ods, toc_done.odt}; thorough {generated, the 4 templates, 25 samples of tests/samples; a "
+              "document with a table of more than 200 rows or columns (repeats expanded) is skipped: "
+              "styled_table.ods; big.ods and background.odp are not listed}.  Receivers: Document, Body, first Paragraph / Header / Span / Table / Row / "
               "Cell / Frame / List / TOC of the body (live wrappers), Meta, Manifest, Styles, Content.  Entry points: "
               "every public property (read with getattr) and every method of type(receiver) named get_*, search*, "
               "match, text_at, serialize, to_markdown, to_csv, get_formatted_text, __str__, __repr__, as_dict, "
@@ -988,3 +1011,166 @@ contract(
         reason="frame condition over the whole public read API and real documents: the effect inference closes only "
                "part of it; this is the replay over templates and samples"),
 )
+
+
+# ============================================================================================ findings / baseline
+def failure_key(target, argvals, label):
+    """Short identity of a failing (input, clause) used to compare a run with BASELINE."""
+    lab = label.split(":", 1)[1]
+    if "round trip" in target:
+        return f"{lab}|{argvals['carrier']}|{argvals['value']!r}"
+    if target == "odfdo.toc:TOC.fill":
+        return lab
+    return f"{lab}|{argvals['entry']}"
+
+
+_TRUE_FALSE = ("'true'", "'false'")
+BASELINE = {      # what fails on the unchanged tree (all of it is listed in FINDINGS)
+    "odfdo.cell:Cell typed value round trip": {
+        f"{st}_str|{c}|{v}" for v in _TRUE_FALSE for c, stages in (
+            ("Cell(value)", ("direct", "reparse")), ("Row.set_value", ("direct", "reparse", "reopen")),
+            ("Table.set_value", ("direct", "reparse", "reopen"))) for st in stages},
+    "odfdo.variable:VarSet/UserFieldDecl/UserDefined typed value round trip": {
+        f"{st}_str|{c}|{v}" for v in _TRUE_FALSE for c in ("VarSet", "UserFieldDecl", "UserDefined")
+        for st in ("direct", "reparse", "reopen")},
+    "odfdo.meta:Meta.set_user_defined_metadata typed value round trip": set(),
+    "odfdo.toc:TOC.fill": {"entry_text", "fill_runs"},
+    "odfdo.document:read-only entry points": {"unchanged|to_markdown", "unchanged|get_variable_decls",
+                                              "unchanged|get_user_field_decls"},
+}
+
+_W_HEAD = 'import sys\nsys.path.insert(0, "/repo/src")\n'
+FINDINGS = [
+    dict(
+        property="C06", target="odfdo.element_typed:ElementTyped._get_typed_value",
+        clause="ensures:direct_str (also reparse_str, reopen_str)",
+        what_fails="the strings 'true' and 'false' stored in a cell, a variable, a user field or a user-defined field "
+                   "read back as 'True' / 'False': _get_typed_value reads office:string-value with get_attribute(), "
+                   "which turns the literals true/false into a bool, then str() of it.  Reached by Cell.get_value, "
+                   "Row.get_value, Table.get_value, VarSet/UserFieldDecl/UserDefined.get_value and the Body "
+                   "get_variable_set_value / get_user_field_value / get_user_defined_value getters (Cell.value is "
+                   "right).  Smallest input: Table.set_value((0,0), 'true').  Fix (1 line, element_typed.py string "
+                   "branch): value = self.get_attribute_string(\"office:string-value\")",
+        witness=_W_HEAD + 'from odfdo import Table\nt = Table("t")\nt.set_value((0, 0), "true")\n'
+                          'got = t.get_value((0, 0))\nprint(repr(got))\nREPRODUCED = got != "true"\n'),
+    dict(
+        property="C06", target="odfdo.meta:Meta.set_user_defined_metadata",
+        clause="ensures:direct_datetime (also reparse_, reopen_, lexical_datetime)",
+        status="reproduced at the start of this session (stored datetime(2024,1,2,3,4,5,999999,+05:30) read back "
+               "datetime(2024,1,2,0,0)); /repo was fixed meanwhile (commit 'fix: Meta.set_user_defined_metadata keeps "
+               "the time of datetime values'), so the witness now sets REPRODUCED=False; restoring the old order of "
+               "the isinstance tests is caught (47 of 48 datetimes, every stage + lexical)",
+        what_fails="isinstance(value, date) tested before isinstance(value, datetime): a datetime was written as an "
+                   "xsd:date and read back at midnight.  Smallest input: datetime(1970,1,1,0,0,0,1).  Fix: swap the "
+                   "two branches (already applied in the tree)",
+        witness=_W_HEAD + 'from datetime import datetime\nfrom odfdo import Document\nm = Document("text").meta\n'
+                          'v = datetime(2024, 1, 2, 3, 4, 5)\nm.set_user_defined_metadata("k", v)\n'
+                          'got = m.get_user_defined_metadata()["k"]\nprint(got)\nREPRODUCED = got != v\n'),
+    dict(
+        property="C20", target="odfdo.toc:TOC.fill", clause="ensures:entry_text",
+        what_fails="every TOC entry ends with a text:line-break: the entry is built with f\"{number_str} {header}\" and "
+                   "str(header) is Paragraph.__str__ = inner_text + '\\n'; the entry is not 'number, space, heading "
+                   "text and nothing else' (4130 of 4130 documents with at least one listed heading).  Smallest input: "
+                   "one level-1 heading 'One'.  Fix (1 line, toc.py fill): Paragraph(f\"{number_str} {header.inner_text}\")",
+        witness=_W_HEAD + 'from odfdo import TOC, Document, Header\ndoc = Document("text")\ndoc.body.clear()\n'
+                          'doc.body.append(Header(1, "One"))\ntoc = TOC()\ndoc.body.append(toc)\ntoc.fill()\n'
+                          'raw = toc._Element__element\n'
+                          'T = "{urn:oasis:names:tc:opendocument:xmlns:text:1.0}"\n'
+                          'entry = [p for p in raw.iter(T + "p") if p.getparent().tag == T + "index-body"][0]\n'
+                          'print(entry.text, [c.tag for c in entry])\n'
+                          'REPRODUCED = [c.tag for c in entry] == [T + "line-break"] and entry.text == "1. One"\n'),
+    dict(
+        property="C20", target="odfdo.toc:TOC.fill", clause="ensures:fill_runs",
+        what_fails="a TOC created without a title (TOC(title=''), a case the constructor provides for) has no "
+                   "text:index-body and fill() raises AttributeError: 'NoneType' object has no attribute "
+                   "'get_element' instead of listing the headings.  Smallest input: empty document.  Fix (2 lines, "
+                   "toc.py fill): title = index_body.get_element(\"text:index-title\") if index_body is not None else None",
+        witness=_W_HEAD + 'from odfdo import TOC, Document, Header\ndoc = Document("text")\ndoc.body.clear()\n'
+                          'doc.body.append(Header(1, "One"))\ntoc = TOC(title="")\ndoc.body.append(toc)\n'
+                          'try:\n    toc.fill()\n    REPRODUCED = False\nexcept AttributeError as e:\n'
+                          '    print(e)\n    REPRODUCED = True\n'),
+    dict(
+        property="C15", target="odfdo.mixin_md:MDTable._md_format (Document.to_markdown)", clause="ensures:unchanged",
+        what_fails="root cause 'export edits the live table': MDTable._md_format calls self.optimize_width(), which "
+                   "deletes trailing empty rows / cells of the table in the document.  Entry point: Document.to_markdown "
+                   "(the only public one; Table has no public Markdown method).  Smallest input: text document with a "
+                   "2x3 table whose last two rows are empty.  Fix (2 lines at the top of MDTable._md_format): "
+                   "if self.parent is not None: return self.clone._md_format(post_styler)",
+        witness=_W_HEAD + 'from lxml import etree\nfrom odfdo import Document, Table\ndoc = Document("text")\n'
+                          'doc.body.clear()\nt = Table("T", width=2, height=3)\nt.set_value((0, 0), "a")\n'
+                          'doc.body.append(t)\nraw = doc.body._Element__element\nbefore = etree.tostring(raw)\n'
+                          'doc.to_markdown()\nafter = etree.tostring(raw)\n'
+                          'print(before.count(b"<table:table-row"), "->", after.count(b"<table:table-row"))\n'
+                          'REPRODUCED = before != after\n'),
+    dict(
+        property="C15", target="odfdo.element:Element.get_variable_decls / Element.get_user_field_decls",
+        clause="ensures:unchanged",
+        what_fails="root cause 'getter creates on demand' (documented: 'Created if not found'): both insert an empty "
+                   "text:variable-decls / text:user-field-decls as first child of the document body when absent.  Entry "
+                   "points: get_variable_decls and get_user_field_decls on every Element receiver (Body, Paragraph, "
+                   "Header, Span, Table, Row, Cell, Frame, List, TOC): 50 (document, receiver) pairs in the quick tier.  "
+                   "Smallest input: Document('text').body.get_variable_decls().  No 1-5 line fix without changing the "
+                   "documented behaviour (the setters rely on the creation)",
+        witness=_W_HEAD + 'from lxml import etree\nfrom odfdo import Document\ndoc = Document("text")\n'
+                          'raw = doc.body._Element__element\nbefore = etree.tostring(raw)\n'
+                          'doc.body.get_variable_decls()\ndoc.body.get_user_field_decls()\n'
+                          'after = etree.tostring(raw)\nREPRODUCED = before != after\n'),
+]
+OBSERVATIONS = [
+    "C06: a timedelta with microseconds is truncated to whole seconds by Duration.encode (outside the property's "
+    "domain of whole seconds; not checked as a violation)",
+    "C06: Meta.get_user_defined_metadata returns an int as the equal Decimal (documented meta number type) and 3.0 as "
+    "Decimal('3.0'); the cell / field carriers return int for integral numbers",
+    "C06: on Python >= 3.11 Date.decode and DateTime.decode are both datetime.fromisoformat, so removing the `\"T\" in` "
+    "test of Cell.value is an equivalent change on this interpreter",
+    "C20: the numbers shown depend on the outline level when an excluded deeper heading precedes the first shallower "
+    "one (levels (3,1): outline 0 -> '1.1.1.', '2.'; outline 1 -> '1.'), because phantom levels are counted only "
+    "over the listed headings; TOC and odfdo-headers agree with each other",
+]
+
+
+def _main(argv):
+    """Run the contracts of this module and compare the failures with BASELINE:  python -m specs.b_values [--thorough]
+    [--target s] [--witnesses]"""
+    import os
+    import sys
+    import time
+    repo = os.environ.get("PYVC_REPO", "/repo")
+    sys.path.insert(0, os.path.join(repo, "src"))
+    from pyvc import native
+    from pyvc.spec import REGISTRY
+    if "--witnesses" in argv:
+        for f in FINDINGS:
+            env = {}
+            exec(f["witness"].replace('"/repo/src"', repr(os.path.join(repo, "src"))), env)  # noqa: S102
+            print(f"{f['property']} {f['target']} {f['clause']}: REPRODUCED={env['REPRODUCED']}")
+        return 0
+    count = 8000 if "--thorough" in argv else 200
+    only = argv[argv.index("--target") + 1] if "--target" in argv else None
+    bad = 0
+    for target, con in REGISTRY.items():
+        if con.bounded is None or target not in BASELINE or (only and only not in target):
+            continue
+        t0, n, seen = time.time(), 0, {}
+        for argvals in native.sample_inputs(con, con.sig, count, seed=0):
+            nr = native.native_eval(con, argvals)
+            if not nr.in_domain:
+                continue
+            n += 1
+            for lab, detail in nr.failures:
+                seen.setdefault(failure_key(target, argvals, lab), []).append(detail)
+        new = {k: v for k, v in seen.items() if k not in BASELINE[target]}
+        gone = sorted(BASELINE[target] - set(seen))
+        print(f"{target}: {n} evaluations in {time.time() - t0:.1f}s; baseline failures seen "
+              f"{len(set(seen) & BASELINE[target])}/{len(BASELINE[target])}; NEW failure keys: {len(new)}")
+        for k, v in sorted(new.items())[:12]:
+            bad += 1
+            print(f"   NEW {k}: {len(v)} inputs; first: {v[0][:260]}")
+        if gone and count > 200:      # the quick tier does not run every reopen stage
+            print(f"   baseline keys that no longer fail (fixed?): {gone}")
+    return 1 if bad else 0
+
+
+if __name__ == "__main__":
+    import sys as _sys
+    _sys.exit(_main(_sys.argv[1:]))
